@@ -9,3 +9,113 @@ pub(crate) fn set_ring(db: &mut DecodeBuffer, rb: RingBuffer) {
 }
 pub(crate) fn total_output_counter(db: &DecodeBuffer) -> u64 { db.total_output_counter }
 pub(crate) fn set_total_output_counter(db: &mut DecodeBuffer, v: u64) { db.total_output_counter = v; }
+
+// ------------------------------------------------------------------------------------------------ C01/C09 window copy
+// DecodeBuffer::repeat against the LZ77 model over dict ++ output: overlapping matches, matches that start in the
+// dictionary and continue in the output in every alignment, offsets beyond dictionary + output, and the
+// "dictionary only while the output is within the window" rule.  Ring operations below are S1 (fixed ring) and S13
+// (contract of copy-from-within, preconditions asserted).
+fn db_repeat_model<const MAXML: usize>() {
+    nd::set_stub_arg(0, 33);
+    let dict: [u8; 4] = nd::any();
+    let data: [u8; 4] = nd::any();
+    let dl: usize = nd::any(); let l: usize = nd::any();
+    nd::assume(dl <= 4 && l <= 4);
+    let w: usize = nd::any();
+    let mut db = DecodeBuffer::new(w);
+    db.dict_content.extend_from_slice(&dict[..dl]);
+    db.push(&data[..l]);
+    let toc: u64 = nd::any();
+    nd::assume(toc <= 1 << 40);
+    db.total_output_counter = toc;
+    let offset: usize = nd::any(); let ml: usize = nd::any();
+    nd::assume(offset >= 1); // established by execute_sequences (exec_never_repeats_offset_zero)
+    nd::assume(ml <= MAXML);
+    // model
+    let mut c = [0u8; 16];
+    let mut k = 0; while k < 4 { if k < dl { c[k] = dict[k]; } k += 1; }
+    let mut k = 0; while k < 4 { if k < l { c[dl + k] = data[k]; } k += 1; }
+    let reach_ok = offset <= dl + l;
+    if reach_ok { let mut k = 0; while k < MAXML { if k < ml { c[dl + l + k] = c[dl + l + k - offset]; } k += 1; } }
+    let r = db.repeat(offset, ml);
+    match r {
+        Ok(()) => {
+            assert!(reach_ok, "match offset beyond dictionary plus output accepted");
+            assert!(offset <= l || toc <= w as u64, "dictionary used although the output has left the window");
+            assert!(db.len() == l + ml, "wrong number of bytes appended");
+            nd_cover!(offset > l && offset - l < ml, "match starts in the dictionary and continues in the output");
+            nd_cover!(offset <= l && offset < ml, "overlapping match");
+            nd_cover!(offset == l + dl && dl > 0, "match reaches the very first dictionary byte");
+            if l + ml > 0 {
+                let i: usize = nd::any();
+                nd::assume(i < l + ml);
+                let (s1, s2) = db.buffer.as_slices();
+                let got = if i < s1.len() { s1[i] } else { s2[i - s1.len()] };
+                assert!(got == c[dl + i], "window copy differs from the LZ77 model over dict ++ output");
+            }
+        }
+        Err(e) => {
+            core::mem::forget(e);
+            assert!(offset > l, "match inside the output refused");
+            assert!(!reach_ok || toc > w as u64, "match reaching into an accessible dictionary refused");
+            nd_cover!(!reach_ok, "offset beyond dictionary plus output");
+            nd_cover!(reach_ok && toc > w as u64, "dictionary no longer accessible");
+        }
+    }
+    core::mem::forget(db);
+}
+harness! { fn db_repeat_model_ml4() { db_repeat_model::<4>(); } }
+harness! { fn db_repeat_model_ml8() { db_repeat_model::<8>(); } }
+
+// C06: drain into a sink that takes any prefix and then stops with Ok(0) or WouldBlock: exactly the accepted bytes
+// leave the buffer, the rest stays in order; the drop count handed to the ring never exceeds its length.
+struct PSink { buf: [u8; 16], n: usize, accept: usize, block: bool }
+impl Write for PSink {
+    fn write(&mut self, b: &[u8]) -> Result<usize, Error> {
+        if self.accept == 0 {
+            if self.block { return Err(Error::from(crate::io::ErrorKind::WouldBlock)); }
+            return Ok(0);
+        }
+        let k = if b.len() < self.accept { b.len() } else { self.accept };
+        let mut j = 0; while j < k { self.buf[self.n + j] = b[j]; j += 1; }
+        self.n += k; self.accept -= k;
+        Ok(k)
+    }
+    fn flush(&mut self) -> Result<(), Error> { Ok(()) }
+}
+harness! { fn db_drain_partial_sink() {
+    nd::set_stub_arg(0, 9);
+    let data: [u8; 8] = nd::any();
+    let pre: usize = nd::any(); let l: usize = nd::any();
+    nd::assume(pre <= 6 && l >= 1 && l <= 8);
+    let w: usize = nd::any();
+    nd::assume(w <= 8);
+    let mut db = DecodeBuffer::new(w);
+    // move head so that the content wraps in the 9-byte ring for some `pre`
+    let junk = [0u8; 8];
+    db.push(&junk[..pre]);
+    db.buffer.drop_first_n(pre);
+    db.push(&data[..l]);
+    let accept: usize = nd::any();
+    nd::assume(accept <= 8);
+    let keep_window: bool = nd::any();
+    let mut sink = PSink { buf: [0; 16], n: 0, accept, block: nd::any() };
+    let r = if keep_window { db.drain_to_window_size_writer(&mut sink) } else { db.drain_to_writer(&mut sink) };
+    let drainable = if keep_window { if l > w { l - w } else { 0 } } else { l };
+    let taken = if accept < drainable { accept } else { drainable };
+    assert!(sink.n == taken, "sink received a different number of bytes than it accepted");
+    assert!(db.len() == l - taken, "bytes lost or duplicated when the sink stopped early");
+    match r { Ok(n) => assert!(n == taken, "reported count differs from what the sink took"), Err(e) => { core::mem::forget(e); assert!(sink.block && accept < drainable); } }
+    let i: usize = nd::any();
+    nd::assume(i < l);
+    if i < taken { assert!(sink.buf[i] == data[i], "bytes handed to the sink out of order"); }
+    else {
+        let (s1, s2) = db.buffer.as_slices();
+        let k = i - taken;
+        let got = if k < s1.len() { s1[k] } else { s2[k - s1.len()] };
+        assert!(got == data[i], "remaining bytes changed");
+    }
+    nd_cover!(pre + l > 9 && taken > 0 && taken < l, "wrapped content, partial drain");
+    nd_cover!(keep_window && l > w && accept >= l - w, "drain down to the window");
+    core::mem::forget(db);
+} }
